@@ -39,6 +39,17 @@ structure Params where
   /-- lower-cased, trimmed `x-amz-trailer` header -/
   trailerName : Bytes
 
+/-- `installAwsChunkReader`: the declared trailer name is the `x-amz-trailer` header value trimmed
+and lower-cased (header field names are case-insensitive) -/
+def declaredTrailer (hdr : Bytes) : Bytes := lower (trimSpace hdr)
+
+/-- the trailer-related parameters as `installAwsChunkReader` / `newAwsChunkReadCloser` derive them
+from the request: `hashOf` = `checksumutils.NewChecksumTrailerHash` (knows lower-case names only),
+`hasTrailer` = the payload mode ends in `-TRAILER`, `hdr` = the `x-amz-trailer` header value -/
+def withDeclaredTrailer (hashOf : Bytes → Option (Bytes → Bytes)) (hasTrailer : Bool) (hdr : Bytes) (P : Params) : Params :=
+  { P with hasTrailer := hasTrailer, trailerName := declaredTrailer hdr,
+           cksum := if hasTrailer then hashOf (declaredTrailer hdr) else none }
+
 def emptyHashHex (c : Crypto) : Bytes := c.sha256hex []
 
 /-- `generateStringToSignForChunk` -/
